@@ -165,6 +165,12 @@ func checkC12(w *World, tier string) *Report {
 						if ctor := w.Func(forkPath(pkVM), fo.Name()); ctor != nil && len(ctor.AnonFuncs) == 1 && returnsOnlyClosure(ctor) {
 							gfn = ctor.AnonFuncs[0]
 							feeDesc += "dynamicGas " + fo.Name() + "(…) "
+						} else if ctor != nil && len(ctor.AnonFuncs) == 0 {
+							// a constructor that hands out one named function on every path
+							if nf := returnsOnlyNamedFunc(ctor); nf != nil && isForkPkg(nf.Pkg) {
+								gfn = nf
+								feeDesc += "dynamicGas " + fo.Name() + "() = " + nf.Name() + " "
+							}
 						}
 					}
 				}
@@ -258,6 +264,32 @@ func stackArgs(info *types.Info, e ast.Expr, name string) (int64, int64, bool) {
 }
 
 // returnsOnlyClosure: every return of ctor yields its single closure.
+// returnsOnlyNamedFunc: every return of ctor returns the same package-level function.
+func returnsOnlyNamedFunc(ctor *ssa.Function) *ssa.Function {
+	var out *ssa.Function
+	for _, b := range ctor.Blocks {
+		for _, ins := range b.Instrs {
+			ret, ok := ins.(*ssa.Return)
+			if !ok {
+				continue
+			}
+			if len(ret.Results) != 1 {
+				return nil
+			}
+			v := ret.Results[0]
+			if ct, ok := v.(*ssa.ChangeType); ok {
+				v = ct.X
+			}
+			f, ok := v.(*ssa.Function)
+			if !ok || f.Parent() != nil || (out != nil && out != f) {
+				return nil
+			}
+			out = f
+		}
+	}
+	return out
+}
+
 func returnsOnlyClosure(ctor *ssa.Function) bool {
 	n := 0
 	for _, b := range ctor.Blocks {
@@ -373,6 +405,10 @@ func journalEffects(w *World, fn *ssa.Function) (bad []string, summary string) {
 		switch e.Kind {
 		case "call":
 			ok = journalAllowedCalls[e.What]
+			if !ok && e.What == "(*P0.Memory).GetPtr" {
+				// a view of the contract's memory is as harmless as a copy when it is only read
+				ok = memViewsOnlyRead(fn)
+			}
 		case "invoke":
 			if strings.HasPrefix(e.What, "P0.StateDB.") {
 				ok = stateDBGetters[strings.TrimPrefix(e.What, "P0.StateDB.")]
@@ -396,7 +432,7 @@ func journalEffects(w *World, fn *ssa.Function) (bad []string, summary string) {
 			continue
 		}
 		if ret, ok := b.Instrs[len(b.Instrs)-1].(*ssa.Return); ok && len(ret.Results) == 2 {
-			if c, ok := ret.Results[0].(*ssa.Const); !ok || c.Value != nil {
+			if !nilDataResult(ret.Results[0], map[*ssa.Function]bool{fn: true}) {
 				bad = append(bad, "returns non-nil return data at "+w.pos(ret.Pos()))
 			}
 		}
@@ -442,7 +478,32 @@ func checkC10(w *World, tier string) *Report {
 				interp = p
 			}
 		}
-		isFrameAddr := func(v ssa.Value) bool {
+		var isFrameAddr func(v ssa.Value) bool
+		isFrameAddr = func(v ssa.Value) bool {
+			if p, isP := v.(*ssa.Parameter); isP && p.Parent() != fn {
+				// a helper's parameter: every call site in the instruction's family must pass the frame address
+				h := p.Parent()
+				pi := -1
+				for k, q := range h.Params {
+					if q == p {
+						pi = k
+					}
+				}
+				nSites := 0
+				for _, f3 := range journalFamilyFuncs(fn) {
+					for _, b3 := range f3.Blocks {
+						for _, i3 := range b3.Instrs {
+							if ci, ok := i3.(ssa.CallInstruction); ok && ci.Common().StaticCallee() == h && pi >= 0 && pi < len(ci.Common().Args) {
+								nSites++
+								if !isFrameAddr(ci.Common().Args[pi]) {
+									return false
+								}
+							}
+						}
+					}
+				}
+				return nSites > 0
+			}
 			c, ok := v.(*ssa.Call)
 			if !ok {
 				return false
@@ -456,7 +517,13 @@ func checkC10(w *World, tier string) *Report {
 				return false
 			}
 			fa, ok := ld.X.(*ssa.FieldAddr)
-			return ok && fieldID(fa) == "P0.ScopeContext.Contract" && scope != nil && fa.X == ssa.Value(scope)
+			if !ok || fieldID(fa) != "P0.ScopeContext.Contract" || scope == nil {
+				return false
+			}
+			// the instruction's own scope, or the scope parameter of a helper of the instruction (a
+			// *ScopeContext is only ever made by the interpreter loop for the running frame)
+			_, isParam := fa.X.(*ssa.Parameter)
+			return fa.X == ssa.Value(scope) || (isParam && typeBaseName(fa.X.Type()) == "ScopeContext")
 		}
 		isOwnTracer := func(v ssa.Value) bool {
 			ld, ok := v.(*ssa.UnOp)
@@ -464,11 +531,28 @@ func checkC10(w *World, tier string) *Report {
 				return false
 			}
 			fa, ok := ld.X.(*ssa.FieldAddr)
-			return ok && fieldID(fa) == "P0.EVMInterpreter.tracer" && interp != nil && fa.X == ssa.Value(interp)
+			if !ok || fieldID(fa) != "P0.EVMInterpreter.tracer" || interp == nil {
+				return false
+			}
+			base := fa.X
+			// a parameter captured by a closure lives in a cell that is assigned once, from the parameter
+			if u, isLoad := base.(*ssa.UnOp); isLoad && u.Op == token.MUL {
+				if al, isAlloc := u.X.(*ssa.Alloc); isAlloc {
+					if sv := singleStore(al); sv != nil {
+						base = sv
+					}
+				} else if fv, isFv := u.X.(*ssa.FreeVar); isFv && immutableFreeVar(fv) {
+					if iv := immFreeVarInit[fv]; iv != nil {
+						base = iv
+					}
+				}
+			}
+			_, isParam := base.(*ssa.Parameter)
+			return base == ssa.Value(interp) || (isParam && typeBaseName(base.Type()) == "EVMInterpreter")
 		}
 		saves, gets := 0, 0
 		var bad []string
-		for _, f2 := range withAnon(fn) {
+		for _, f2 := range journalFamilyFuncs(fn) {
 			for _, b := range f2.Blocks {
 				for _, ins := range b.Instrs {
 					ci, ok := ins.(ssa.CallInstruction)
@@ -601,35 +685,60 @@ func addR102(w *World, r *Report, rule string) {
 		}
 		return v
 	}
-	for _, b := range fn.Blocks {
-		for _, ins := range b.Instrs {
-			ret, ok := ins.(*ssa.Return)
-			if !ok {
-				continue
-			}
-			nret++
-			vals := []ssa.Value{ret.Results[0]}
-			if phi, ok := ret.Results[0].(*ssa.Phi); ok {
-				vals = phi.Edges
-			}
-			nIdx := 0
-			for _, v := range vals {
-				if c, ok := v.(*ssa.Const); ok {
-					if c.Value == nil || constant.Sign(c.Value) != 0 {
-						okAll, why = false, "a constant other than 0 is returned"
+	nIdxAll := 0
+	// scan: every value f returns is the constant 0 or the load chain `fields` starting at f's receiver; a return
+	// may delegate to another fork function that is handed an inner part of the chain (t.callTree.currentIndex()).
+	var scan func(f *ssa.Function, fields []string, depth int)
+	scan = func(f *ssa.Function, fields []string, depth int) {
+		for _, b := range f.Blocks {
+			for _, ins := range b.Instrs {
+				ret, ok := ins.(*ssa.Return)
+				if !ok {
+					continue
+				}
+				nret++
+				if len(ret.Results) != 1 {
+					okAll, why = false, "unexpected result list"
+					continue
+				}
+				vals := []ssa.Value{ret.Results[0]}
+				if phi, ok := ret.Results[0].(*ssa.Phi); ok {
+					vals = phi.Edges
+				}
+				for _, v := range vals {
+					if c, ok := v.(*ssa.Const); ok {
+						if c.Value == nil || constant.Sign(c.Value) != 0 {
+							okAll, why = false, "a constant other than 0 is returned"
+						}
+						continue
 					}
-					continue
+					if call, isCall := v.(*ssa.Call); isCall && depth < 2 {
+						if g := call.Call.StaticCallee(); g != nil && isForkPkg(g.Pkg) && g.Blocks != nil && len(call.Call.Args) == 1 && len(g.Params) == 1 {
+							delegated := false
+							for k := 1; k < len(fields); k++ {
+								if root := chain(call.Call.Args[0], fields[k:]...); root != nil && root == ssa.Value(f.Params[0]) {
+									scan(g, fields[:k], depth+1)
+									delegated = true
+								}
+							}
+							if delegated {
+								continue
+							}
+						}
+					}
+					if root := chain(v, fields...); root == nil || root != ssa.Value(f.Params[0]) {
+						okAll, why = false, "a returned value is not t.callTree.current.Index"
+						continue
+					}
+					nIdxAll++
 				}
-				if root := chain(v, "P0.Call.Index", "P0.CallTree.current", "P0.Tracer.callTree"); root == nil || root != ssa.Value(fn.Params[0]) {
-					okAll, why = false, "a returned value is not t.callTree.current.Index"
-					continue
-				}
-				nIdx++
-			}
-			if nIdx == 0 {
-				okAll, why = false, "the cursor's index is never returned"
 			}
 		}
+	}
+	scan(fn, []string{"P0.Call.Index", "P0.CallTree.current", "P0.Tracer.callTree"}, 0)
+	if nIdxAll == 0 {
+		// over all returns (a single return of a phi, or an early `return 0` plus a return of the index)
+		okAll, why = false, "the cursor's index is never returned"
 	}
 	if okAll && nret > 0 {
 		r.holds(rule, key, w.pos(fn.Pos()), "returns callTree.current.Index (loaded at the time of the call) or the constant 0")
@@ -891,7 +1000,9 @@ func addR105(w *World, r *Report, rule string) {
 			return inner
 		}
 		var condBad []string
-		okCond := func(c ssa.Value) bool {
+		var okCondFor func(c ssa.Value, valP ssa.Value, depth int) bool
+		okCond := func(c ssa.Value) bool { return okCondFor(c, valP, 0) }
+		okCondFor = func(c ssa.Value, valP ssa.Value, depth int) bool {
 			for {
 				if u, ok := c.(*ssa.UnOp); ok && u.Op == token.NOT {
 					c = u.X
@@ -904,16 +1015,87 @@ func addR105(w *World, r *Report, rule string) {
 				_, isLk := x.Tuple.(*ssa.Lookup)
 				return isLk && x.Index == 1
 			case *ssa.BinOp:
-				for _, side := range []ssa.Value{x.X, x.Y} {
-					if call, ok := side.(*ssa.Call); ok {
-						if bi, ok := call.Call.Value.(*ssa.Builtin); ok && bi.Name() == "len" && isListOfValues(call.Call.Args[0]) {
+				var fromLen func(v ssa.Value, d int) bool
+				fromLen = func(v ssa.Value, d int) bool {
+					if d == 0 {
+						return false
+					}
+					switch y := v.(type) {
+					case *ssa.Call:
+						if bi, ok := y.Call.Value.(*ssa.Builtin); ok && bi.Name() == "len" && isListOfValues(y.Call.Args[0]) {
 							return true
 						}
+					case *ssa.BinOp:
+						if y.Op == token.ADD || y.Op == token.SUB {
+							_, kx := y.X.(*ssa.Const)
+							_, ky := y.Y.(*ssa.Const)
+							return (ky && fromLen(y.X, d-1)) || (kx && fromLen(y.Y, d-1))
+						}
+					case *ssa.Convert:
+						return fromLen(y.X, d-1)
 					}
+					return false
 				}
-				return false
+				_, kx := x.X.(*ssa.Const)
+				_, ky := x.Y.(*ssa.Const)
+				return (fromLen(x.X, 4) && (ky || fromLen(x.Y, 4))) || (fromLen(x.Y, 4) && kx)
 			case *ssa.Call:
 				cal := x.Call.StaticCallee()
+				// a fork helper deciding from the list of values and the new value alone: every decision and every
+				// result of the helper is itself of the accepted vocabulary over its parameters
+				if cal != nil && isForkPkg(cal.Pkg) && cal.Blocks != nil && depth < 2 && len(x.Call.Args) == len(cal.Params) {
+					var hv ssa.Value
+					for i, a := range x.Call.Args {
+						switch {
+						case a == valP:
+							hv = cal.Params[i]
+						case isListOfValues(a):
+						default:
+							return false
+						}
+					}
+					if hv == nil {
+						return false
+					}
+					var okRes func(v ssa.Value, seen map[ssa.Value]bool) bool
+					okRes = func(v ssa.Value, seen map[ssa.Value]bool) bool {
+						if seen[v] {
+							return true
+						}
+						seen[v] = true
+						switch y := v.(type) {
+						case *ssa.Const:
+							return true
+						case *ssa.Phi:
+							for _, e := range y.Edges {
+								if !okRes(e, seen) {
+									return false
+								}
+							}
+							return true
+						}
+						return okCondFor(v, hv, depth+1)
+					}
+					for _, hb := range cal.Blocks {
+						switch t := hb.Instrs[len(hb.Instrs)-1].(type) {
+						case *ssa.If:
+							if !okCondFor(t.Cond, hv, depth+1) {
+								return false
+							}
+						case *ssa.Return:
+							if len(t.Results) != 1 || !okRes(t.Results[0], map[ssa.Value]bool{}) {
+								return false
+							}
+						}
+						for _, ins := range hb.Instrs {
+							switch ins.(type) {
+							case *ssa.Store, *ssa.MapUpdate, *ssa.Go, *ssa.Defer, *ssa.Send:
+								return false
+							}
+						}
+					}
+					return true
+				}
 				if cal == nil || normPath(cal.String()) != "bytes.Equal" || len(x.Call.Args) != 2 {
 					return false
 				}
@@ -1172,4 +1354,115 @@ func addMonotoneIndexRule(w *World, r *Report, rule string) {
 		r.holds(rule, key, "-", fmt.Sprintf("%d store(s) to the call counter, each load(count)+1", n))
 	}
 	r.need(rule, 1)
+}
+
+
+// nilDataResult: the value is the nil byte slice — literally, or as result 0 of a fork helper all of
+// whose returns hand back nil data (an instruction may end in `return helper(...)`).
+func nilDataResult(v ssa.Value, seen map[*ssa.Function]bool) bool {
+	if c, ok := v.(*ssa.Const); ok {
+		return c.Value == nil
+	}
+	if phi, ok := v.(*ssa.Phi); ok {
+		for _, e := range phi.Edges {
+			if !nilDataResult(e, seen) {
+				return false
+			}
+		}
+		return true
+	}
+	ex, ok := v.(*ssa.Extract)
+	if !ok || ex.Index != 0 {
+		return false
+	}
+	c, ok := ex.Tuple.(*ssa.Call)
+	if !ok {
+		return false
+	}
+	f := c.Call.StaticCallee()
+	if f == nil || !isForkPkg(f.Pkg) || f.Blocks == nil || seen[f] {
+		return false
+	}
+	seen[f] = true
+	for _, b := range f.Blocks {
+		if ret, ok := b.Instrs[len(b.Instrs)-1].(*ssa.Return); ok {
+			if len(ret.Results) == 0 || !nilDataResult(ret.Results[0], seen) {
+				return false
+			}
+		}
+	}
+	return true
+}
+
+// memViewsOnlyRead: every result of Memory.GetPtr in the journal family of fn (a slice sharing the
+// contract's memory) is only read: sliced, indexed for loading, measured, or handed as the source to a
+// reader (uint256 SetBytes*, copy, append's variadic operand, conversion to string). It is never stored,
+// returned, captured, written through or passed to anything else.
+func memViewsOnlyRead(fn *ssa.Function) bool {
+	var readOnly func(v ssa.Value, depth int) bool
+	readOnly = func(v ssa.Value, depth int) bool {
+		if depth > 6 || v.Referrers() == nil {
+			return depth <= 6
+		}
+		for _, r := range *v.Referrers() {
+			switch x := r.(type) {
+			case *ssa.DebugRef:
+			case *ssa.Slice:
+				if x.X != v || !readOnly(x, depth+1) {
+					return false
+				}
+			case *ssa.IndexAddr:
+				for _, r2 := range *x.Referrers() {
+					if u, ok := r2.(*ssa.UnOp); !ok || u.Op != token.MUL {
+						if _, dbg := r2.(*ssa.DebugRef); !dbg {
+							return false
+						}
+					}
+				}
+			case *ssa.Convert:
+				if b, ok := x.Type().Underlying().(*types.Basic); !ok || b.Info()&types.IsString == 0 {
+					return false
+				}
+			case *ssa.Call:
+				if bi, ok := x.Call.Value.(*ssa.Builtin); ok {
+					switch bi.Name() {
+					case "len", "cap":
+					case "copy", "append":
+						if len(x.Call.Args) != 2 || x.Call.Args[1] != v || x.Call.Args[0] == v {
+							return false
+						}
+					default:
+						return false
+					}
+					continue
+				}
+				cal := x.Call.StaticCallee()
+				if cal == nil || cal.Signature.Recv() == nil || !isBignumPtr(cal.Signature.Recv().Type()) || !strings.HasPrefix(cal.Name(), "SetBytes") {
+					return false
+				}
+				if len(x.Call.Args) < 2 || x.Call.Args[0] == v {
+					return false
+				}
+			default:
+				return false
+			}
+		}
+		return true
+	}
+	for _, f2 := range journalFamilyFuncs(fn) {
+		for _, b := range f2.Blocks {
+			for _, ins := range b.Instrs {
+				c, ok := ins.(*ssa.Call)
+				if !ok {
+					continue
+				}
+				if cal := c.Call.StaticCallee(); cal != nil && cal.Name() == "GetPtr" && cal.Signature.Recv() != nil && typeBaseName(cal.Signature.Recv().Type()) == "Memory" {
+					if !readOnly(c, 0) {
+						return false
+					}
+				}
+			}
+		}
+	}
+	return true
 }
